@@ -39,6 +39,7 @@ implementation:
                              the empty string (instead of every entity)
     uid_list_error           a UID key holding more than one UID makes the query fail (processing error)
     reject_no_keys           an identifier without any supported key is rejected as invalid
+    range_empty_value        a range without lower bound ("-b") also matches entities whose stored value is empty
 """
 from __future__ import annotations
 
@@ -65,7 +66,7 @@ UNIQUE = {"PATIENT": "PatientID", "STUDY": "StudyInstanceUID", "SERIES": "Series
           "IMAGE": "SOPInstanceUID"}
 TEXT_VR = ("LO", "PN", "SH", "CS")
 QUIRKS = ("per_instance_rows", "like_underscore", "like_percent", "like_case_insensitive", "like_null",
-          "empty_text_not_universal", "uid_list_error", "reject_no_keys")
+          "empty_text_not_universal", "uid_list_error", "reject_no_keys", "range_empty_value")
 
 
 def key_level(root, kw):
@@ -209,7 +210,7 @@ def value_matches(kw, qv, stored, quirks, variant):
         return False
     if mtype == "range":
         if stored == "":
-            return False
+            return "range_empty_value" in quirks and qv.startswith("-") and qv.count("-") == 1 and len(qv) > 1
         return range_match(vr, qv, stored)
     # single value
     if vr == "IS":
